@@ -61,10 +61,17 @@ contract(PBM, params={"n": "int", "i": "int"},
     ensures={"rows_disjoint": "forall(a, 0, i, pairs_before(a, n) + (n - a - 1) <= pairs_before(i, n)) and pairs_before(i, n) >= 0"},
     loops={0: {"var": "s", "invariant": {"range": "0 <= s", "mono": "forall(a, 0, s, pairs_before(a, n) + (n - a - 1) <= pairs_before(s, n)) and pairs_before(s, n) >= 0"}}},
     options={"frame_obligations": False}, props=("C10",))
+PBC = "ghost:contracts/ghost_stats.py::pb_closed"
+contract(PBC, params={"n": "int", "i": "int"},
+    requires={"range": "0 <= i and i <= n"},
+    ensures={"closed_form": "2 * pairs_before(i, n) == i * (2 * n - i - 1)"},
+    loops={0: {"var": "s", "invariant": {"range": "0 <= s", "eq": "2 * pairs_before(s, n) == s * (2 * n - s - 1)"}}},
+    options={"frame_obligations": False}, props=("C10",))
 contract(f"{S}::mk_sens_slope", variant="default", params={"x": "real[N]"}, result=("real", "real"), requires={"length": "N >= 2"},
     local_ensures={
         "all_pairwise_slopes": "forall((a, b), implies(0 <= a and a < b and b < N, d[pairs_before(a, N) + b - a - 1] == (x[b] - x[a]) / (b - a)))",
         "cells_used": "ix == pairs_before(N - 1, N)",
+        "no_other_cells": "d.size == pairs_before(N - 1, N)",
         "slope_is_median_of_slopes": "result[0] == nanmedian(d)",
         "intercept": "result[1] == nanmedian(x) - (real(N) - 1) / 2 * result[0]",
     },
@@ -74,6 +81,7 @@ contract(f"{S}::mk_sens_slope", variant="default", params={"x": "real[N]"}, resu
                                          "done": "forall((a, b), implies(0 <= a and a < i and a < b and b < N, d[pairs_before(a, N) + b - a - 1] == (x[b] - x[a]) / (b - a)))",
                                          "row": "forall(b, i + 1, j, d[pairs_before(i, N) + b - i - 1] == (x[b] - x[i]) / (b - i))"},
                "head_hints": [("call", PBM, {"n": "N", "i": "i"})]}},
+    exit_hints=[("call", PBC, {"n": "N", "i": "N - 1"})],
     options={"nloops": 2, "frame_obligations": False, "div_obligations": False, "index_obligations": False}, props=("C10",),
     note="index safety of d[ix] (ix < n(n-1)/2) is C14's obligation; here the cells are identified through the linear recursion pairs_before")
 
